@@ -502,11 +502,24 @@ def _writeframe_body_keeps_lock(fl):
     return []
 
 
+# handleProtocolMessage (ping / pong / close frames) dispatches like a data message: through handleMessage (hence
+# recv.Execute, the conn's job queue) and in no other way (model: a control frame is a `recv` step like any other)
+def _protocol_dispatch(fl):
+    calls = [f["expr"] for f in fl if f["kind"] == "call"]
+    if "recv.handleMessage" not in calls:
+        return ["handleProtocolMessage: does not go through handleMessage"]
+    other = [c for c in calls if c != "recv.handleMessage"]
+    if other:
+        return ["handleProtocolMessage: handles control frames on a path of its own (%s) instead of the job queue" % ", ".join(sorted(set(other)))]
+    return []
+
+
 C14_CS = cs.WSWRITE + cs.WSCLOSE + [
     cs_conc.cs_conn_submit, cs_conc.cs_conn_drainer, cs_conc.cs_conn_close_flip, cs_conc.cs_nbhttp_close_routed,
     _custom("upgrade_response_before_open", "nbhttp/websocket/upgrader.go", "websocket.Upgrader.Upgrade", _upgrade_order),
     _custom("ws_message_dispatched_through_execute", "nbhttp/websocket/conn.go", "websocket.Conn.handleMessage", _dispatch),
     upgrade_sync_executor_only_in_transfer_branches,
+    _custom("ws_control_frames_dispatched_like_messages", "nbhttp/websocket/conn.go", "websocket.Conn.handleProtocolMessage", _protocol_dispatch),
     no_unlock_between("ws_writemessage_single_hold_across_fragments", "nbhttp/websocket/conn.go", "websocket.Conn.WriteMessage", "recv.mux", "recv.writeFrame"),
     _custom("ws_writeframe_body_keeps_callers_lock", "nbhttp/websocket/conn.go", "websocket.Conn.writeFrame", _writeframe_body_keeps_lock),
 ]
